@@ -187,6 +187,10 @@ func caseC05(c *Ctx) {
 
 // C06: target death and table recycling.
 func caseC06(c *Ctx) {
+	if c.Mode == "wide" {
+		caseC06Wide(c)
+		return
+	}
 	cfg := GenCfg(c.R, 0)
 	cfg.RelCapInc = Pick(c.R, []int{0, 1, 2})
 	p := DefaultProfile()
